@@ -231,6 +231,9 @@ func (g *xgen) buildSigned(rs *ResponseSpec, placement int, key *KeyPair, mod fu
 	}
 	doc.SetRoot(root)
 	for _, a := range rs.Assertions {
+		if rs.Pretty {
+			a.CommentInValues = false // etree's Indent re-flows mixed content: the pretty-printed value would not be the intended one
+		}
 		el := buildAssertion(rs.Style, a)
 		root.AddChild(el)
 		if a.NameIDRaw != "" {
@@ -684,6 +687,30 @@ func (g *xgen) newSPFor(store []*KeyPair, now time.Time) *saml2.SAMLServiceProvi
 	return sp
 }
 
+// reconfigure assigns every configuration field of src to the EXISTING object dst (a re-configuration history on one
+// SP instance; a stateless implementation behaves exactly like a fresh instance).
+func reconfigure(dst, src *saml2.SAMLServiceProvider) {
+	dst.IdentityProviderSSOURL, dst.IdentityProviderSLOURL = src.IdentityProviderSSOURL, src.IdentityProviderSLOURL
+	dst.IdentityProviderIssuer, dst.AssertionConsumerServiceURL = src.IdentityProviderIssuer, src.AssertionConsumerServiceURL
+	dst.ServiceProviderSLOURL, dst.ServiceProviderIssuer, dst.AudienceURI = src.ServiceProviderSLOURL, src.ServiceProviderIssuer, src.AudienceURI
+	dst.IDPCertificateStore, dst.Clock = src.IDPCertificateStore, src.Clock
+	dst.SkipSignatureValidation, dst.AllowMissingAttributes, dst.ValidateEncryptionCert = src.SkipSignatureValidation, src.AllowMissingAttributes, src.ValidateEncryptionCert
+	dst.SPKeyStore, dst.SPSigningKeyStore, dst.MaximumDecompressedBodySize = src.SPKeyStore, src.SPSigningKeyStore, src.MaximumDecompressedBodySize
+}
+
+// computeTrust fills rc.trusted from generator knowledge for rc's CURRENT store and clock; returns whether the Response's
+// own signature verifies.
+func computeTrust(rc *respCase) bool {
+	respOK := signatureVerifies(rc.rs.SignedBy, rc.store, rc.now)
+	rc.trusted = nil
+	for _, a := range rc.rs.Assertions {
+		if (a.CoveredByResp && respOK) || signatureVerifies(a.SignedBy, rc.store, rc.now) {
+			rc.trusted = append(rc.trusted, a)
+		}
+	}
+	return respOK
+}
+
 func summarise(rc *respCase, resp *types.Response, err error) map[string]interface{} {
 	m := map[string]interface{}{"labels": rc.labels, "assertions": len(rc.rs.Assertions), "bytes": len(rc.raw)}
 	if err != nil {
@@ -701,6 +728,7 @@ func runResponseStream(c *Ctx, n int, focus string) {
 		"(config * instant * node * list (node * dsig_result) * list (node * res node))",
 		"fun i => match i with (cfg, now, root, dt, et) => VL [res_val response_val (validate_response_tree (dsig_table dt) (decrypt_table et) cfg now root); res_val assertion_info_val (retrieve_assertion_info_tree (dsig_table dt) (decrypt_table et) cfg now root)] end")
 	cs.PerShard = 25
+	var prevSP *saml2.SAMLServiceProvider
 	for k := 0; k < n; k++ {
 		g := &xgen{r: c.R, now: baseNow.Add(time.Duration(c.R.Intn(100000)) * time.Second)}
 		r := c.R
@@ -749,6 +777,13 @@ func runResponseStream(c *Ctx, n int, focus string) {
 		if r.Intn(8) == 0 {
 			sp.AllowMissingAttributes = true
 		}
+		reused := false
+		if prevSP != nil && r.Intn(2) == 0 {
+			reconfigure(prevSP, sp)
+			sp = prevSP
+			reused = true
+		}
+		prevSP = sp
 		// --- genuine message ---
 		nA := 1 + r.Intn(3)
 		if r.Intn(6) == 0 {
@@ -821,6 +856,9 @@ func runResponseStream(c *Ctx, n int, focus string) {
 		doc := g.buildSigned(rs, placement, key, mod)
 		rc := &respCase{sp: sp, store: store, now: now, rs: rs, genuine: true}
 		rc.labels = append(rc.labels, fmt.Sprintf("placement=%d", placement), "key="+key.Name, "style="+rs.Style.PP+"/"+rs.Style.AP)
+		if reused {
+			rc.labels = append(rc.labels, "sp-instance-reused")
+		}
 		if profileFault != "" {
 			rc.labels = append(rc.labels, "profile-fault="+profileFault)
 		}
@@ -878,11 +916,19 @@ func runResponseStream(c *Ctx, n int, focus string) {
 					}
 				}
 				// attacker-side encryption of a forged / unsigned plaintext
-				if (focus == "C07" || focus == "C01") && r.Intn(4) == 0 {
+				if (focus == "C07" || focus == "C01" || focus == "C04") && r.Intn(4) == 0 {
 					f, _ := g.forgedAssertion(rs.Style, "")
 					d := etree.NewDocument()
 					d.SetRoot(f)
 					plain, _ := d.WriteToBytes()
+					switch r.Intn(5) {
+					case 0: // a plaintext that is not an assertion at all: an Issuer element the attacker would like to see honoured
+						plain = []byte(`<saml:Issuer xmlns:saml="urn:oasis:names:tc:SAML:2.0:assertion">https://attacker-idp.example.net/metadata</saml:Issuer>`)
+						rc.labels = append(rc.labels, "encrypted-plaintext=issuer-element")
+					case 1:
+						plain = []byte(`<samlp:Status xmlns:samlp="urn:oasis:names:tc:SAML:2.0:protocol"><samlp:StatusCode Value="urn:oasis:names:tc:SAML:2.0:status:Success"/></samlp:Status>`)
+						rc.labels = append(rc.labels, "encrypted-plaintext=status-element")
+					}
 					ea := encryptedAssertion(plain, *g.randEncOpts(w), rs.Style.AP)
 					if r.Intn(3) == 0 {
 						ext := d2.Root().CreateElement(rs.Style.p("Extensions"))
@@ -905,13 +951,32 @@ func runResponseStream(c *Ctx, n int, focus string) {
 		}
 		rc.wire = b64(wire)
 		// --- trusted specs (generator knowledge) ---
-		respOK := signatureVerifies(rs.SignedBy, store, now)
-		for _, a := range rs.Assertions {
-			if (a.CoveredByResp && respOK) || signatureVerifies(a.SignedBy, store, now) {
-				rc.trusted = append(rc.trusted, a)
-			}
-		}
+		respOK := computeTrust(rc)
 		runOneResponse(c, cs, rc, respOK, profileFault)
+		// --- the SAME body presented again to the SAME SP object after a re-configuration ---
+		if r.Intn(6) == 0 {
+			rc2 := *rc
+			rc2.labels = append([]string{}, rc.labels...)
+			switch r.Intn(3) {
+			case 0:
+				sp.SkipSignatureValidation = !sp.SkipSignatureValidation
+				rc2.labels = append(rc2.labels, "re-presented-after:skip-toggled")
+			case 1:
+				rc2.store = []*KeyPair{w.IdP2}
+				if r.Intn(2) == 0 {
+					rc2.store = []*KeyPair{}
+				}
+				sp.IDPCertificateStore = certStore(rc2.store...)
+				rc2.labels = append(rc2.labels, "re-presented-after:store-replaced")
+			default:
+				rc2.now = certNA.Add(time.Hour)
+				sp.Clock = dsig.NewFakeClockAt(rc2.now)
+				rc2.genuine = false // assertions are expired by then: only the safety half applies
+				rc2.labels = append(rc2.labels, "re-presented-after:clock-past-certificate-window")
+			}
+			respOK2 := computeTrust(&rc2)
+			runOneResponse(c, cs, &rc2, respOK2, profileFault)
+		}
 	}
 }
 
@@ -1029,6 +1094,16 @@ func runOneResponse(c *Ctx, cs *CaseSet, rc *respCase, respSigOK bool, profileFa
 					c.Violate("spec", "flags:unsigned-response-unflagged-assertion", "Response flag false and an assertion not individually validated", replay)
 				}
 			}
+			if !resp.SignatureValidated {
+				if n, ok := directAssertionChildren(rc.raw); ok && n != len(resp.Assertions) && !hasLabelPrefix(rc.labels, "encrypted-plaintext=") {
+					c.Violate("spec", "unsigned-response:assertion-dropped", fmt.Sprintf("unsigned Response accepted with %d assertion(s) returned although it carries %d Assertion / EncryptedAssertion children: not every assertion it carries was individually verified", len(resp.Assertions), n), replay)
+				}
+			}
+			for _, l := range rc.labels {
+				if l == "attacker-encrypted-forged-nested" {
+					c.Violate("spec", "encrypted:nested-not-rejected", "a Response carrying an EncryptedAssertion that is not a direct child of the Response was accepted", replay)
+				}
+			}
 			if resp.SignatureValidated {
 				if !respSigOK {
 					c.Violate("spec", "flags:response-flag-overstated", "Response flagged validated but its own signature cannot verify under the configured store/clock", replay)
@@ -1038,6 +1113,13 @@ func runOneResponse(c *Ctx, cs *CaseSet, rc *respCase, respSigOK bool, profileFa
 			} else if len(resp.Assertions) != 0 && !allIndividually(resp) {
 				c.Violate("spec", "flags:unsigned-response", "unsigned Response accepted with an assertion that is not individually signed", replay)
 			}
+		}
+		if want, ok := lastRootIssuer(rc.raw); ok && (resp.Issuer == nil || resp.Issuer.Value != want) {
+			got := "<nil>"
+			if resp.Issuer != nil {
+				got = resp.Issuer.Value
+			}
+			c.Violate("spec", "forgery:response-issuer", fmt.Sprintf("returned Response Issuer %q is not the (last) Issuer child of the presented root %q", got, want), replay)
 		}
 		if info != nil && info.ResponseSignatureValidated != resp.SignatureValidated {
 			c.Violate("spec", "flags:info-flag-mirror", "AssertionInfo.ResponseSignatureValidated does not mirror the Response flag", replay)
@@ -1081,6 +1163,47 @@ func runOneResponse(c *Ctx, cs *CaseSet, rc *respCase, respSigOK bool, profileFa
 	o := buildOracles(sp, root)
 	in := "(" + configTerm(sp) + ", " + Instant(rc.now) + ", " + nodeTerm(root) + ", " + o.dsigTerm() + ", " + o.decryptTerm() + ")"
 	cs.Add(in, VL([]string{obsResp, obsInfo}), strings.Join(rc.labels, ","))
+}
+
+func hasLabelPrefix(labels []string, p string) bool {
+	for _, l := range labels {
+		if strings.HasPrefix(l, p) {
+			return true
+		}
+	}
+	return false
+}
+
+// directAssertionChildren counts the Assertion and EncryptedAssertion direct children of the presented root.
+func directAssertionChildren(raw []byte) (int, bool) {
+	d := etree.NewDocument()
+	if err := d.ReadFromBytes(raw); err != nil || d.Root() == nil {
+		return 0, false
+	}
+	n := 0
+	for _, ch := range d.Root().ChildElements() {
+		if ch.Tag == "Assertion" || ch.Tag == "EncryptedAssertion" {
+			n++
+		}
+	}
+	return n, true
+}
+
+// lastRootIssuer: text of the last direct-child Issuer element of the document the harness presents (its own document).
+func lastRootIssuer(raw []byte) (string, bool) {
+	d := etree.NewDocument()
+	if err := d.ReadFromBytes(raw); err != nil || d.Root() == nil {
+		return "", false
+	}
+	found := false
+	val := ""
+	for _, ch := range d.Root().ChildElements() {
+		if ch.Tag == "Issuer" {
+			found = true
+			val = ch.Text()
+		}
+	}
+	return val, found
 }
 
 func mustDecodeWire(w string) []byte {
